@@ -30,6 +30,8 @@ class State:
         self.log: List[Any] = []  # ghost events: ('call', name, args), ('ctxset', value), side obligations ...
         self.ghost: Dict[str, Any] = {}  # ghost variables (e.g. the context-local text)
         self.depth = 0
+        self.model = None      # a z3 model known to satisfy pc[:model_len] (speeds up branching)
+        self.model_len = 0
 
     def fork(self) -> "State":
         s = State()
@@ -40,6 +42,7 @@ class State:
         s.log = list(self.log)
         s.ghost = dict(self.ghost)
         s.depth = self.depth
+        s.model, s.model_len = self.model, self.model_len
         return s
 
     @property
